@@ -16,6 +16,8 @@ rule("C11.a", "persisted attributes (written in __init__, not popped by the writ
 rule("C11.b", "attributes written outside __init__ (scratch state of set-up) are removed by the writer", floor=2)
 rule("C11.c", "every constructor parameter is persisted under its own name (stored from that parameter, or forwarded to super().__init__)", floor=60)
 rule("C11.d", "Timegrid writer keys are constructor parameters and every state-determining parameter is written", floor=5)
+rule("C20.k", "order book: every constructor parameter (wacc, orders, full_exec ...) is stored or forwarded to the base class - what "
+              "the set-up reads is what the user passed", floor=3)
 rule("C11.e", "every __class__ tag the writer emits has a reader branch reading only keys the writer wrote; datetime formats agree", floor=9)
 rule("C11.f", "every asset class is resolvable by name in the reader's namespace", floor=12)
 rule("C11.g", "Node / Unit: instance attributes are constructor parameters; Portfolio: reader keys are writer keys", floor=6)
@@ -196,7 +198,7 @@ def _find_hooks(ctx):
     return ser, writer, reader
 
 
-@analysis("serialization", ["C11.a", "C11.b", "C11.c", "C11.d", "C11.e", "C11.f", "C11.g"])
+@analysis("serialization", ["C11.a", "C11.b", "C11.c", "C11.d", "C11.e", "C11.f", "C11.g", "C20.k"])
 def run(ctx):
     p = ctx.p
     ser, writer, reader = _find_hooks(ctx)
@@ -311,6 +313,12 @@ def run(ctx):
             if lost:
                 why = "parameter %s is stored but the writer pops it for %s" % (q.name, ci.name)
             ctx.ob("C11.c", ci.name, "parameter %s" % q.name, ok, why, node=init.node)
+            if ci.name == "OrderBook":
+                # the same fact seen from C20: a parameter the order book accepts reaches the attribute its set-up reads
+                ctx.ob("C20.k", ci.name, "parameter %s" % q.name, ok,
+                       "OrderBook.__init__ accepts %s but neither stores it nor forwards it to Asset.__init__: the base class keeps its "
+                       "default, so e.g. a discount rate given to the order book never reaches the discount factors its costs use" % q.name,
+                       node=init.node)
 
     # =========================================================================== Timegrid: C11.d
     if "Timegrid" in by_class and "Timegrid" in rtags:
